@@ -2,7 +2,7 @@
    The hash is a finite map; HSET/HMSET/HSETNX, HINCRBY, HDEL and the read
    commands are characterised against that map.  Nothing here changes a model
    file; only Base/Resp/State/Exec/Lemmas are used. *)
-From RE Require Import Base Resp State Exec Lemmas.
+From RE Require Import Base Resp State Exec Exec2 Lemmas.
 From Coq Require Import List ZArith NArith Lia Bool.
 From Coq Require Import DecimalPos DecimalN.
 From Coq Require Import String.
@@ -317,6 +317,99 @@ Example hincrby_missing_key_and_field :
     (put empty_db (s2b "h") (VHash [(s2b "f", s2b "-7")]) None, RInt (-7)) /\
   snd (cmd_hincrby 50 (ex_db 1) [s2b "h"; s2b "other"; s2b "1"]) = err "ERR hash value is not an integer".
 Proof. vm_compute. split; reflexivity. Qed.
+
+(* ------------------------------------------------------------------ *)
+(* 2'. what "holds a signed 64-bit integer" means: strict_i64 accepts   *)
+(*     exactly the canonical decimal text of an int64                   *)
+(* ------------------------------------------------------------------ *)
+
+Lemma parse_i64_in_range b z : parse_i64 b = Some z -> in_i64 z = true.
+Proof.
+  unfold parse_i64.
+  destruct (match b with
+            | 45%N :: r => (true, r)
+            | 43%N :: r => (false, r)
+            | _ => (false, b)
+            end) as [neg ds].
+  destruct (parse_udec ds) as [n|]; [|discriminate].
+  destruct (in_i64 (if neg then - Z.of_N n else Z.of_N n)) eqn:E; [|discriminate].
+  intro H. inversion H; subst. exact E.
+Qed.
+
+Lemma parse_udec_uint_bytes u : u <> Decimal.Nil -> parse_udec (uint_bytes u) = Some (N.of_uint u).
+Proof.
+  intro Hn. unfold parse_udec. rewrite bytes_uint_uint_bytes.
+  destruct u; try congruence; reflexivity.
+Qed.
+
+Lemma parse_i64_unsigned u :
+  u <> Decimal.Nil ->
+  parse_i64 (uint_bytes u) = if in_i64 (Z.of_N (N.of_uint u)) then Some (Z.of_N (N.of_uint u)) else None.
+Proof.
+  intro Hn. pose proof (parse_udec_uint_bytes u Hn) as Hp.
+  destruct u; try congruence; unfold parse_i64; cbn [uint_bytes] in *; cbv beta iota;
+    rewrite Hp; reflexivity.
+Qed.
+
+Lemma parse_i64_Z_to_bytes z : in_i64 z = true -> parse_i64 (Z_to_bytes z) = Some z.
+Proof.
+  intro Hi. destruct z as [|p|p]; [reflexivity| |].
+  - unfold Z_to_bytes. rewrite parse_i64_unsigned by apply DecimalPos.Unsigned.to_uint_nonnil.
+    unfold N.of_uint. rewrite DecimalPos.Unsigned.of_to. simpl Z.of_N. rewrite Hi. reflexivity.
+  - unfold Z_to_bytes, parse_i64.
+    rewrite parse_udec_uint_bytes by apply DecimalPos.Unsigned.to_uint_nonnil.
+    unfold N.of_uint. rewrite DecimalPos.Unsigned.of_to. simpl Z.of_N. simpl Z.opp. rewrite Hi. reflexivity.
+Qed.
+
+Theorem strict_i64_iff t v : strict_i64 t = Some v <-> t = Z_to_bytes v /\ in_i64 v = true.
+Proof.
+  unfold strict_i64. split.
+  - destruct (parse_i64 t) as [z|] eqn:Ep; [|discriminate].
+    destruct (bytes_eqb (Z_to_bytes z) t) eqn:Eb; [|discriminate].
+    intro H. inversion H; subst z. apply bytes_eqb_eq in Eb.
+    split; [symmetry; exact Eb | eapply parse_i64_in_range; exact Ep].
+  - intros [Ht Hi]. subst t. rewrite parse_i64_Z_to_bytes by exact Hi.
+    rewrite bytes_eqb_refl. reflexivity.
+Qed.
+Print Assumptions strict_i64_iff.
+
+(* HINCRBY success, stated without any parser: the field is absent, or its text
+   is the canonical decimal text of some int64 v, and v + delta is an int64 *)
+Corollary hincrby_success_iff_canonical now d k f n delta cur r :
+  parse_i64 n = Some delta ->
+  get_hash now d k = Some cur ->
+  (snd (cmd_hincrby now d [k; f; n]) = RInt r <->
+   (aget (cur_hash cur) f = None /\ r = delta) \/
+   (exists v, aget (cur_hash cur) f = Some (Z_to_bytes v) /\
+              min_i64 <= v <= max_i64 /\ min_i64 <= v + delta <= max_i64 /\ r = v + delta)).
+Proof.
+  intros Hp Hg. rewrite (hincrby_success_iff now d k f n delta cur r Hp Hg).
+  assert (Hin : forall z, in_i64 z = true <-> min_i64 <= z <= max_i64).
+  { intro z. unfold in_i64. rewrite andb_true_iff, !Z.leb_le. reflexivity. }
+  split; (intros [H|H]; [left; exact H|right]).
+  - destruct H as [t [v [H1 [H2 [H3 H4]]]]]. apply strict_i64_iff in H2. destruct H2 as [Ht Hi].
+    subst t. exists v. rewrite <- !Hin. auto.
+  - destruct H as [v [H1 [H2 [H3 H4]]]]. exists (Z_to_bytes v), v.
+    rewrite strict_i64_iff, !Hin. auto.
+Qed.
+Print Assumptions hincrby_success_iff_canonical.
+
+(* the delta of a successful HINCRBY is itself an int64 *)
+Lemma hincrby_delta_range n delta : parse_i64 n = Some delta -> min_i64 <= delta <= max_i64.
+Proof.
+  intro H. apply parse_i64_in_range in H. unfold in_i64 in H.
+  apply andb_true_iff in H. rewrite !Z.leb_le in H. exact H.
+Qed.
+
+(* non-canonical texts are not integers for HINCRBY (as in Redis), although the
+   increment argument itself is read with the laxer parse_i64 *)
+Example strict_examples :
+  strict_i64 (s2b "+5") = None /\ strict_i64 (s2b "05") = None /\ strict_i64 (s2b "-0") = None /\
+  strict_i64 (s2b "") = None /\ strict_i64 (s2b " 5") = None /\
+  strict_i64 (s2b "9223372036854775808") = None /\
+  strict_i64 (s2b "-9223372036854775808") = Some min_i64 /\
+  snd (cmd_hincrby 50 (ex_db 1) [s2b "h"; s2b "f"; s2b "+05"]) = RInt 6.
+Proof. vm_compute. repeat split; reflexivity. Qed.
 
 (* ------------------------------------------------------------------ *)
 (* 1. HSET / HMSET / HSETNX: the hash is a finite map                  *)
@@ -669,6 +762,17 @@ Proof.
     apply bytes_eqb_eq in E. subst k. rewrite Ek in *. rewrite IH. reflexivity.
 Qed.
 
+Lemma NoDup_map_fst_filter {A B} (p : A * B -> bool) (h : list (A * B)) :
+  NoDup (map fst h) -> NoDup (map fst (filter p h)).
+Proof.
+  induction h as [|[k v] h IH]; cbn [filter map fst]; intro Hnd; [constructor|].
+  inversion Hnd as [|? ? Hnin Hnd']; subst.
+  destruct (p (k, v)); [|apply IH; exact Hnd'].
+  cbn [map fst]. constructor; [|apply IH; exact Hnd'].
+  intro Hin. apply Hnin. apply in_map_iff in Hin. destruct Hin as [[k2 v2] [Hk Hin]].
+  apply filter_In in Hin. apply in_map_iff. exists (k2, v2). tauto.
+Qed.
+
 (* C04.3 *)
 Theorem hdel_spec now d k fs h exp :
   fs <> [] ->
@@ -932,3 +1036,127 @@ Example hash_error_ex :
   cmd_hincrby 50 d [s2b "h"; s2b "f"; s2b "1.5"] = (d, argerr) /\
   cmd_hrandfield 50 d [s2b "h"; s2b "1"; s2b "bogus"] = (d, argerr).
 Proof. vm_compute. repeat split; reflexivity. Qed.
+
+(* ------------------------------------------------------------------ *)
+(* 7. HSCAN (reply shape of Exec2): candidates are the matching pairs   *)
+(* ------------------------------------------------------------------ *)
+
+Theorem hscan_spec now d k h exp cur c :
+  get_hash now d k = Some (Some (h, exp)) ->
+  parse_i64 cur = Some c ->
+  cmd_hscan now d [k; cur] = (d, RScan (map pair_cand h) true) /\
+  (forall a p, is_kw a "MATCH" = true ->
+     cmd_hscan now d [k; cur; a; p] =
+       (d, RScan (map pair_cand (filter (fun fv => glob_match p (fst fv)) h)) true)).
+Proof.
+  intros Hg Hc. unfold cmd_hscan. rewrite Hc. split.
+  - simpl. rewrite Hg.
+    replace (filter (fun _ : bytes * bytes => true) h) with h; [reflexivity|].
+    clear. induction h as [|x h IH]; simpl; [reflexivity|]. rewrite <- IH. reflexivity.
+  - intros a p Ha. cbn [List.length scan_opts]. rewrite Ha. cbv iota beta. rewrite Hg. reflexivity.
+Qed.
+Print Assumptions hscan_spec.
+
+Theorem hscan_pure now d args : fst (cmd_hscan now d args) = d.
+Proof.
+  unfold cmd_hscan.
+  repeat match goal with
+         | |- context [match ?x with _ => _ end] => destruct x
+         end; reflexivity.
+Qed.
+Print Assumptions hscan_pure.
+
+Example hscan_ex :
+  let d := ex_db 7 in
+  cmd_hscan 50 d [s2b "h"; s2b "0"; s2b "match"; s2b "o*"] =
+    (d, RScan [RArr [RBulk (s2b "other"); RBulk (s2b "x")]] true) /\
+  cmd_hscan 50 d [s2b "nokey"; s2b "0"] = (d, RArr [RBulk (s2b "0"); RArr []]).
+Proof. vm_compute. split; reflexivity. Qed.
+
+(* ------------------------------------------------------------------ *)
+(* 8. invariant: every stored hash is non-empty with distinct fields,   *)
+(*    and every hash command keeps it so (for arbitrary arguments)      *)
+(* ------------------------------------------------------------------ *)
+
+Definition hash_wf (d : db) : Prop :=
+  forall k e h, aget (d_map d) k = Some e -> e_val e = VHash h -> h <> [] /\ NoDup (map fst h).
+
+Lemma lookup_aget now d k e : lookup now d k = Some e -> aget (d_map d) k = Some e.
+Proof.
+  unfold lookup. destruct (aget (d_map d) k) as [e0|]; [|discriminate].
+  destruct (expired now e0); [discriminate|]. exact (fun H => H).
+Qed.
+
+Lemma hash_wf_get now d k cur :
+  hash_wf d -> get_hash now d k = Some cur -> NoDup (map fst (cur_hash cur)).
+Proof.
+  intros Hwf Hg. destruct cur as [[h e]|]; simpl; [|constructor].
+  apply get_hash_some in Hg. destruct Hg as [e0 [Hl [Hv _]]].
+  apply lookup_aget in Hl. exact (proj2 (Hwf k e0 h Hl Hv)).
+Qed.
+
+Lemma hash_wf_put_hash d k h exp :
+  hash_wf d -> NoDup (map fst h) -> hash_wf (put_hash d k h exp).
+Proof.
+  intros Hwf Hnd k' e' h' Ha Hv. unfold put_hash, put_or_del in Ha.
+  destruct h as [|p h]; simpl in Ha.
+  - destruct (bytes_eq_dec k' k) as [E|E].
+    + subst k'. rewrite aget_adel_same in Ha. discriminate.
+    + rewrite aget_adel_other in Ha by exact E. exact (Hwf k' e' h' Ha Hv).
+  - destruct (bytes_eq_dec k' k) as [E|E].
+    + subst k'. rewrite aget_aset_same in Ha. inversion Ha; subst e'. simpl in Hv.
+      inversion Hv; subst h'. split; [discriminate | exact Hnd].
+    + rewrite aget_aset_other in Ha by exact E. exact (Hwf k' e' h' Ha Hv).
+Qed.
+
+Theorem hash_wf_preserved now d args :
+  hash_wf d ->
+  (forall mode, hash_wf (fst (cmd_hset mode now d args))) /\
+  hash_wf (fst (cmd_hdel now d args)) /\
+  hash_wf (fst (cmd_hincrby now d args)).
+Proof.
+  intro Hwf. split; [|split].
+  - intro mode. unfold cmd_hset.
+    destruct args as [|k [|a fv]]; try exact Hwf.
+    destruct (pairs_of (a :: fv)) as [ps|]; [|exact Hwf].
+    destruct ((mode =? 2)%N && negb (Nat.eqb (List.length ps) 1)); [exact Hwf|].
+    destruct (get_hash now d k) as [cur|] eqn:Hg; [|exact Hwf].
+    pose proof (hash_wf_get now d k cur Hwf Hg) as Hnd.
+    pose proof (hset_all_NoDup (cur_hash cur) ps (mode =? 2)%N Hnd) as Hnd'.
+    destruct cur as [[h e]|]; cbn [cur_hash] in *;
+      destruct (hset_all _ ps (mode =? 2)%N) as [h' n]; cbn [fst] in *;
+      (destruct ((mode =? 2)%N && (n =? 0)); [exact Hwf | apply hash_wf_put_hash; assumption]).
+  - unfold cmd_hdel. destruct args as [|k [|f0 fs0]]; try exact Hwf.
+    destruct (get_hash now d k) as [[[h e]|]|] eqn:Hg; try exact Hwf.
+    pose proof (hash_wf_get now d k _ Hwf Hg) as Hnd. cbn [cur_hash] in Hnd.
+    change (fun (acc : list (bytes * bytes) * Z) (f : bytes) =>
+              let '(h0, n) := acc in if amem h0 f then (adel h0 f, n + 1) else (h0, n))
+      with hdel_step.
+    destruct (fold_left hdel_step (f0 :: fs0) (h, 0)) as [h1 n1] eqn:E. cbn [fst].
+    destruct (n1 =? 0); [exact Hwf|]. apply hash_wf_put_hash; [exact Hwf|].
+    destruct (hdel_fold_spec _ _ _ _ _ E) as [H1 _]. subst h1.
+    apply NoDup_map_fst_filter. exact Hnd.
+  - unfold cmd_hincrby. destruct args as [|k [|f [|n [|x r]]]]; try exact Hwf.
+    destruct (parse_i64 n) as [delta|]; [|exact Hwf].
+    destruct (get_hash now d k) as [cur|] eqn:Hg; [|exact Hwf].
+    pose proof (hash_wf_get now d k cur Hwf Hg) as Hnd.
+    destruct cur as [[h e]|]; cbn [cur_hash] in *.
+    + destruct (aget h f) as [old|].
+      * destruct (strict_i64 old) as [v|]; [|exact Hwf].
+        destruct (in_i64 (v + delta)); [|exact Hwf].
+        apply hash_wf_put_hash; [exact Hwf | apply (NoDup_akeys_aset h f); exact Hnd].
+      * apply hash_wf_put_hash; [exact Hwf | apply (NoDup_akeys_aset h f); exact Hnd].
+    + cbn [aget]. apply hash_wf_put_hash; [exact Hwf | apply (NoDup_akeys_aset [] f); constructor].
+Qed.
+Print Assumptions hash_wf_preserved.
+
+Lemma hash_wf_empty : hash_wf empty_db.
+Proof. intros k e h Ha. discriminate. Qed.
+
+(* a visible hash is therefore never empty *)
+Corollary hash_never_empty now d k h exp :
+  hash_wf d -> get_hash now d k = Some (Some (h, exp)) -> h <> [] /\ NoDup (map fst h).
+Proof.
+  intros Hwf Hg. apply get_hash_some in Hg. destruct Hg as [e [Hl [Hv _]]].
+  apply lookup_aget in Hl. exact (Hwf k e h Hl Hv).
+Qed.
